@@ -308,6 +308,14 @@ class Check:
                 return j, mms
         return None
 
+    @staticmethod
+    def _spec_digest(spec: Dict[str, Any]) -> str:
+        if "_digest" not in spec:
+            spec["_digest"] = hashlib.sha256(
+                json.dumps([spec["ops"], spec.get("hashseed", 0)], sort_keys=True).encode()
+            ).hexdigest()[:16]
+        return spec["_digest"]
+
     def account(self, spec: Dict[str, Any], res: Dict[str, Any]) -> None:
         st = self.stats
         st["sessions"] += 1
@@ -352,7 +360,8 @@ class Check:
             if compared:
                 st["compared_ops"] += 1
                 if touched > 0:
-                    st["nontrivial_sessions"].add(spec.get("index"))
+                    # distinct by content: the digest of the operation list and hash seed
+                    st["nontrivial_sessions"].add(self._spec_digest(spec))
                 if last_fault_pos >= 0 and j > last_fault_pos:
                     st["post_fault_compared"] += 1
                 if ev.get("cache0") and max(ev["cache0"]) > 0:
